@@ -210,8 +210,26 @@ func framePredicate(stream []byte, magic uint32) (ok bool, kind string, payload 
 	return false, "", nil, "command"
 }
 
+// panicSite: first stack frame inside the repository under test (file path relative to its root;
+// works for /repo and for a scratch worktree given by VERIF_REPO).
+func panicSite(p string) string {
+	root := os.Getenv("VERIF_REPO")
+	if root == "" {
+		root = "/repo"
+	}
+	root = strings.TrimRight(root, "/") + "/"
+	for _, l := range strings.Split(p, "\n") {
+		l = strings.TrimSpace(l)
+		if strings.HasPrefix(l, root) && strings.Contains(l, ".go:") {
+			l = l[len(root):]
+			return l[:strings.Index(l, ".go:")+3]
+		}
+	}
+	return ev.PanicSite(p)
+}
+
 func reportPanic(ctx *ev.Ctx, tag, p string, stream []byte) {
-	key := "panic:" + ev.PanicSite(p)
+	key := "panic:" + panicSite(p)
 	ctx.Known(key, "%s: reading a %d-byte stream panicked (stream %x): %s", tag, len(stream), clip(stream), p)
 }
 
